@@ -7,7 +7,7 @@
    "unknown protocol version"); the 65536- and 70000-byte writes are corpus cases of harness c19.
    The chunk condition added by the fix is regenerated from the source (Gen/FakeTlsConsts.v). *)
 From Coq Require Import ZArith List Bool.
-From TD Require Import Lib.GoSem Gen.FakeTlsConsts Model.FakeTls Proof.FakeTls.
+From TD Require Import Lib.GoSem Gen.FakeTlsConsts Model.FakeTls Proof.FakeTls Lib.ReadFull Proof.ReadFullInst.
 Import ListNotations.
 Open Scope Z_scope.
 
@@ -55,6 +55,15 @@ Proof.
   rewrite (hello_parse_complete packet rest Hs) in Hp. inversion Hp; subst. congruence.
 Qed.
 Print Assumptions C19_hello_wrong_key_rejected.
+
+(* "All read chunkings" of the underlying connection: io.ReadFull's loop over a reader that hands
+   out the stream in pieces of any sizes returns what the byte-list model's read_full returns
+   (the sizes of the caller's own Read buffers are the [ks] of C19_stream). *)
+Theorem C19_chunking :
+  forall (k : Z) (s : bytes) (szs : list nat),
+    read_full_sched TEof TUnexpEof k s szs = read_full k s.
+Proof. exact faketls_read_full_chunking. Qed.
+Print Assumptions C19_chunking.
 
 (* ---- non-vacuity ---- *)
 (* a concrete accepted hello: 38-byte handshake body, CCS, application; hmac returns the digest field *)
